@@ -17,6 +17,7 @@ import (
 	"runtime"
 	"sort"
 	"strconv"
+	"strings"
 	"sync"
 	"time"
 
@@ -33,26 +34,31 @@ import (
 
 // ---------------- universe ----------------
 
+// universe: the resource type and the two tenancies a history works in
+type universe struct {
+	typ  *pbresource.Type
+	tens [2][2]string
+}
+
 var (
-	zvThing = &pbresource.Type{Group: "zv", GroupVersion: "v1", Kind: "thing"}
 	zvOwner = &pbresource.Type{Group: "zv", GroupVersion: "v1", Kind: "owner"}
 	// two tenancies with prefix-related namespace names
-	zvTen   = [2][2]string{{"default", "ns"}, {"default", "ns2"}}
-	zvNames = [3]string{"a", "ab", "b"} // prefix-related names
+	storageUniverse = &universe{typ: &pbresource.Type{Group: "zv", GroupVersion: "v1", Kind: "thing"}, tens: [2][2]string{{"default", "ns"}, {"default", "ns2"}}}
+	zvNames         = [3]string{"a", "ab", "b"} // prefix-related names
 )
 
 const nRes = 6 // resource index = tenancy*3 + name
 
-func resTen(r int) int      { return r / 3 }
-func resName(r int) string  { return zvNames[r%3] }
-func tenancy(t int) *pbresource.Tenancy {
-	return &pbresource.Tenancy{Partition: zvTen[t][0], Namespace: zvTen[t][1]}
+func resTen(r int) int     { return r / 3 }
+func resName(r int) string { return zvNames[r%3] }
+func (u *universe) tenancy(t int) *pbresource.Tenancy {
+	return &pbresource.Tenancy{Partition: u.tens[t][0], Namespace: u.tens[t][1]}
 }
-func resID(r int, uid string) *pbresource.ID {
-	return &pbresource.ID{Type: proto.Clone(zvThing).(*pbresource.Type), Tenancy: tenancy(resTen(r)), Name: resName(r), Uid: uid}
+func (u *universe) resID(r int, uid string) *pbresource.ID {
+	return &pbresource.ID{Type: proto.Clone(u.typ).(*pbresource.Type), Tenancy: u.tenancy(resTen(r)), Name: resName(r), Uid: uid}
 }
-func ownerID(o int, uid string) *pbresource.ID {
-	return &pbresource.ID{Type: proto.Clone(zvOwner).(*pbresource.Type), Tenancy: tenancy(0), Name: fmt.Sprintf("own%d", o), Uid: uid}
+func (u *universe) ownerID(o int, uid string) *pbresource.ID {
+	return &pbresource.ID{Type: proto.Clone(zvOwner).(*pbresource.Type), Tenancy: u.tenancy(0), Name: fmt.Sprintf("own%d", o), Uid: uid}
 }
 
 // scope of a List / WatchList call.
@@ -62,16 +68,16 @@ type scope struct {
 	Prefix string `json:"prefix,omitempty"`
 }
 
-func (s scope) tenancy() *pbresource.Tenancy {
+func (s scope) tenancy(u *universe) *pbresource.Tenancy {
 	switch s.Ten {
 	case -1:
 		return &pbresource.Tenancy{Partition: storage.Wildcard, Namespace: storage.Wildcard}
 	case -2:
-		return &pbresource.Tenancy{Partition: "default", Namespace: storage.Wildcard}
+		return &pbresource.Tenancy{Partition: u.tens[0][0], Namespace: storage.Wildcard}
 	case -3:
-		return &pbresource.Tenancy{Partition: storage.Wildcard, Namespace: "ns"}
+		return &pbresource.Tenancy{Partition: storage.Wildcard, Namespace: u.tens[0][1]}
 	}
-	return tenancy(s.Ten)
+	return u.tenancy(s.Ten)
 }
 
 // matches is the harness' own statement of which resources a scope covers.
@@ -112,19 +118,19 @@ type item struct {
 	Bad   string `json:"bad,omitempty"` // non-empty: the resource does not parse into the universe
 }
 
-func parseItem(res *pbresource.Resource) item {
+func (u *universe) parseItem(res *pbresource.Resource) item {
 	it := item{Res: -1}
 	if res == nil || res.Id == nil || res.Id.Type == nil || res.Id.Tenancy == nil {
 		it.Bad = "nil id/type/tenancy"
 		return it
 	}
 	it.Uid, it.Ver, it.Pid = res.Id.Uid, res.Version, res.Metadata["pid"]
-	if !proto.Equal(res.Id.Type, zvThing) {
+	if !proto.Equal(res.Id.Type, u.typ) {
 		it.Bad = "type " + res.Id.Type.String()
 		return it
 	}
 	for r := 0; r < nRes; r++ {
-		if zvTen[resTen(r)][0] == res.Id.Tenancy.Partition && zvTen[resTen(r)][1] == res.Id.Tenancy.Namespace && resName(r) == res.Id.Name {
+		if u.tens[resTen(r)][0] == res.Id.Tenancy.Partition && u.tens[resTen(r)][1] == res.Id.Tenancy.Namespace && resName(r) == res.Id.Name {
 			it.Res = r
 		}
 	}
@@ -157,6 +163,7 @@ type opRec struct {
 	OUid   string `json:"ouid,omitempty"` // queried owner uid (listowner)
 	Scope  *scope `json:"scope,omitempty"`
 	Mode   string `json:"mode,omitempty"` // how the arguments were chosen (coverage only)
+	Svc    int    `json:"svc,omitempty"`  // part S: id of the service call that made this backend call
 	Call   int64  `json:"call"`
 	Ret    int64  `json:"ret"`
 	Err    string `json:"err,omitempty"` // "", cas, uid, notfound, other:<msg>
@@ -202,6 +209,7 @@ type hparams struct {
 	SnapAt    int       `json:"snapat,omitempty"`
 	RestoreAt int       `json:"restoreat,omitempty"`
 	Procs     int       `json:"procs"`
+	Active    int       `json:"active"` // resources 0..Active-1 are used
 }
 
 type snapInfo struct {
@@ -218,6 +226,7 @@ type restInfo struct {
 
 type hist struct {
 	P          hparams
+	U          *universe
 	start      time.Time
 	Ops        []opRec
 	Gens       []*watchGen
@@ -285,7 +294,7 @@ func (z *zvHandle) snapshot() {
 		if err := res.UnmarshalBinary(b); err != nil {
 			panic(err)
 		}
-		it := parseItem(&res)
+		it := z.h.U.parseItem(&res)
 		si.Items[it.Res] = it
 	}
 	si.Ret = z.h.now()
@@ -306,7 +315,7 @@ func (z *zvHandle) restore() {
 	r.Commit()
 	ri.Ret = z.h.now()
 	// post-restore content must equal the snapshot (strong list over everything)
-	got, err := z.be.List(context.Background(), storage.StrongConsistency, storage.UnversionedTypeFrom(zvThing), scope{Ten: -1}.tenancy(), "")
+	got, err := z.be.List(context.Background(), storage.StrongConsistency, storage.UnversionedTypeFrom(z.h.U.typ), scope{Ten: -1}.tenancy(z.h.U), "")
 	if err != nil {
 		ri.Diff = "list error: " + err.Error()
 	} else {
@@ -435,9 +444,9 @@ func (c *client) freshPid() string {
 var bg = context.Background()
 
 func (c *client) write(r int, uid, ver string, owner int, mode string) *opRec {
-	res := &pbresource.Resource{Id: resID(r, uid), Version: ver, Metadata: map[string]string{"pid": c.freshPid()}}
+	res := &pbresource.Resource{Id: c.h.U.resID(r, uid), Version: ver, Metadata: map[string]string{"pid": c.freshPid()}}
 	if owner > 0 {
-		res.Owner = ownerID(owner, "o")
+		res.Owner = c.h.U.ownerID(owner, "o")
 	}
 	op := opRec{Client: c.id, Kind: "write", Res: r, Uid: uid, Ver: ver, Pid: res.Metadata["pid"], Owner: owner, Mode: mode}
 	op.Call = c.h.now()
@@ -445,7 +454,7 @@ func (c *client) write(r int, uid, ver string, owner int, mode string) *opRec {
 	op.Ret = c.h.now()
 	op.Err = errClass(err)
 	if err == nil {
-		it := parseItem(out)
+		it := c.h.U.parseItem(out)
 		op.Out = &it
 		c.know[r].learn(pair{it.Uid, it.Ver})
 	}
@@ -456,7 +465,7 @@ func (c *client) write(r int, uid, ver string, owner int, mode string) *opRec {
 func (c *client) delete(r int, uid, ver string, mode string) *opRec {
 	op := opRec{Client: c.id, Kind: "delete", Res: r, Uid: uid, Ver: ver, Mode: mode}
 	op.Call = c.h.now()
-	err := c.be.DeleteCAS(bg, resID(r, uid), ver)
+	err := c.be.DeleteCAS(bg, c.h.U.resID(r, uid), ver)
 	op.Ret = c.h.now()
 	op.Err = errClass(err)
 	if err == nil && c.know[r].cur.uid == uid {
@@ -469,11 +478,11 @@ func (c *client) delete(r int, uid, ver string, mode string) *opRec {
 func doRead(h *hist, be storage.Backend, cid, r int, uid, mode string) opRec {
 	op := opRec{Client: cid, Kind: "read", Res: r, Uid: uid, Mode: mode}
 	op.Call = h.now()
-	out, err := be.Read(bg, storage.StrongConsistency, resID(r, uid))
+	out, err := be.Read(bg, storage.StrongConsistency, h.U.resID(r, uid))
 	op.Ret = h.now()
 	op.Err = errClass(err)
 	if err == nil {
-		it := parseItem(out)
+		it := h.U.parseItem(out)
 		op.Out = &it
 	}
 	return op
@@ -493,11 +502,11 @@ func (c *client) read(r int, uid, mode string) *opRec {
 func (c *client) list(sc scope) {
 	op := opRec{Client: c.id, Kind: "list", Res: -1, Scope: &sc}
 	op.Call = c.h.now()
-	out, err := c.be.List(bg, storage.StrongConsistency, storage.UnversionedTypeFrom(zvThing), sc.tenancy(), sc.Prefix)
+	out, err := c.be.List(bg, storage.StrongConsistency, storage.UnversionedTypeFrom(c.h.U.typ), sc.tenancy(c.h.U), sc.Prefix)
 	op.Ret = c.h.now()
 	op.Err = errClass(err)
 	for _, x := range out {
-		it := parseItem(x)
+		it := c.h.U.parseItem(x)
 		op.Items = append(op.Items, it)
 		if it.Res >= 0 {
 			c.know[it.Res].learn(pair{it.Uid, it.Ver})
@@ -509,11 +518,11 @@ func (c *client) list(sc scope) {
 func (c *client) listOwner(o int, ouid string) {
 	op := opRec{Client: c.id, Kind: "listowner", Res: -1, Owner: o, OUid: ouid}
 	op.Call = c.h.now()
-	out, err := c.be.ListByOwner(bg, ownerID(o, ouid))
+	out, err := c.be.ListByOwner(bg, c.h.U.ownerID(o, ouid))
 	op.Ret = c.h.now()
 	op.Err = errClass(err)
 	for _, x := range out {
-		op.Items = append(op.Items, parseItem(x))
+		op.Items = append(op.Items, c.h.U.parseItem(x))
 	}
 	c.recs = append(c.recs, op)
 }
@@ -531,7 +540,7 @@ func (c *client) anyOld(r int) (pair, bool) {
 // step performs one randomly chosen operation (a read-modify-write counts as two).
 func (c *client) step() int {
 	rng := c.rng
-	r := rng.Intn(nRes)
+	r := rng.Intn(c.h.P.Active)
 	k := &c.know[r]
 	switch x := rng.Intn(100); {
 	case x < 38: // write
@@ -650,7 +659,14 @@ type watcher struct {
 func (w *watcher) finalsSeen(g *watchGen) bool {
 	seen := 0
 	need := 0
-	for r := 0; r < nRes; r++ {
+	eos := false
+	for i := range g.Events {
+		eos = eos || g.Events[i].Kind == "eos"
+	}
+	if !eos {
+		return false
+	}
+	for r := 0; r < w.h.P.Active; r++ {
 		if !g.Scope.matches(r) {
 			continue
 		}
@@ -669,7 +685,7 @@ func (w *watcher) run(stop <-chan struct{}) {
 	h := w.h
 	cid := 100 + w.id
 	for i := 0; i < w.p.Warmup; i++ {
-		w.recs = append(w.recs, doRead(h, w.be, cid, (i+w.id)%nRes, "", "warmup-read"))
+		w.recs = append(w.recs, doRead(h, w.be, cid, (i+w.id)%h.P.Active, "", "warmup-read"))
 	}
 	var prev storage.Watch
 	var prevGen *watchGen
@@ -677,7 +693,7 @@ func (w *watcher) run(stop <-chan struct{}) {
 		g := &watchGen{Watcher: w.id, Gen: gen, Scope: w.p.Scope, LateClose: w.p.LateClose}
 		w.gens = append(w.gens, g)
 		g.Call = h.now()
-		wt, err := w.be.WatchList(bg, storage.UnversionedTypeFrom(zvThing), w.p.Scope.tenancy(), w.p.Scope.Prefix)
+		wt, err := w.be.WatchList(bg, storage.UnversionedTypeFrom(h.U.typ), w.p.Scope.tenancy(h.U), w.p.Scope.Prefix)
 		g.Ret = h.now()
 		if err != nil {
 			g.End = "err:watchlist:" + err.Error()
@@ -733,9 +749,9 @@ func (w *watcher) run(stop <-chan struct{}) {
 				we := wevent{NextCall: nc, T: t}
 				switch {
 				case ev.GetUpsert() != nil:
-					we.Kind, we.It = "upsert", parseItem(ev.GetUpsert().Resource)
+					we.Kind, we.It = "upsert", h.U.parseItem(ev.GetUpsert().Resource)
 				case ev.GetDelete() != nil:
-					we.Kind, we.It = "delete", parseItem(ev.GetDelete().Resource)
+					we.Kind, we.It = "delete", h.U.parseItem(ev.GetDelete().Resource)
 				case ev.GetEndOfSnapshot() != nil:
 					we.Kind = "eos"
 					if prev != nil { // a late closer lets go of its closed watch only now
@@ -766,13 +782,18 @@ func (w *watcher) run(stop <-chan struct{}) {
 // ---------------- one history ----------------
 
 func runHistory(p hparams, rng *core.Rand) *hist {
-	h := &hist{P: p, start: time.Now(), flushed: make(chan struct{}), mainClient: p.Clients}
+	h := &hist{P: p, U: storageUniverse, start: time.Now(), flushed: make(chan struct{}), mainClient: p.Clients}
 	s := newSUT(h)
 	defer s.cancel()
+	return driveHistory(h, s, rng, nil)
+}
 
+// driveHistory: prelude, concurrent phase (storage-level clients, or the given extra workers), flush, collection.
+func driveHistory(h *hist, s *sut, rng *core.Rand, extra []func()) *hist {
+	p := h.P
 	// sequential prelude: some resources exist (and one was already re-created) before anything concurrent
 	mc := &client{id: p.Clients, h: h, be: s.be, rng: rng.Fork(7)}
-	for r := 0; r < nRes; r++ {
+	for r := 0; r < p.Active; r++ {
 		switch mc.rng.Intn(4) {
 		case 0:
 		case 1:
@@ -790,17 +811,24 @@ func runHistory(p hparams, rng *core.Rand) *hist {
 	startCh := make(chan struct{})
 	stop := make(chan struct{})
 	var cwg, wwg sync.WaitGroup
-	clients := make([]*client, p.Clients)
-	for i := range clients {
-		c := &client{id: i, h: h, be: s.be, rng: rng.Fork(uint64(100 + i))}
-		// clients start with what the prelude left (so that early ops collide on real versions)
-		c.know = mc.know
-		for r := range c.know {
-			c.know[r].old = append([]pair(nil), mc.know[r].old...)
+	var clients []*client
+	if extra == nil {
+		clients = make([]*client, p.Clients)
+		for i := range clients {
+			c := &client{id: i, h: h, be: s.be, rng: rng.Fork(uint64(100 + i))}
+			// clients start with what the prelude left (so that early ops collide on real versions)
+			c.know = mc.know
+			for r := range c.know {
+				c.know[r].old = append([]pair(nil), mc.know[r].old...)
+			}
+			clients[i] = c
+			cwg.Add(1)
+			go func() { defer cwg.Done(); <-startCh; c.run() }()
 		}
-		clients[i] = c
+	}
+	for _, fn := range extra {
 		cwg.Add(1)
-		go func() { defer cwg.Done(); <-startCh; c.run() }()
+		go func() { defer cwg.Done(); <-startCh; fn() }()
 	}
 	watchers := make([]*watcher, len(p.Watchers))
 	for i, wp := range p.Watchers {
@@ -816,7 +844,7 @@ func runHistory(p hparams, rng *core.Rand) *hist {
 		s.handle.finish()
 	}
 	// flush: one final sequential write per resource; every watcher must get to see it
-	for r := 0; r < nRes; r++ {
+	for r := 0; r < p.Active; r++ {
 		op := mc.read(r, "", "flush-read")
 		var w *opRec
 		if op.Err == "" {
@@ -835,8 +863,8 @@ func runHistory(p hparams, rng *core.Rand) *hist {
 	go func() { wwg.Wait(); close(done) }()
 	select {
 	case <-done:
-	case <-time.After(20 * time.Second):
-		h.Incomplete = "watchers did not observe the final writes within 20s"
+	case <-time.After(10 * time.Second):
+		h.Incomplete = "watchers did not observe the final writes within 10s"
 		close(stop)
 		<-done
 	}
@@ -850,4 +878,56 @@ func runHistory(p hparams, rng *core.Rand) *hist {
 		h.Gens = append(h.Gens, w.gens...)
 	}
 	return h
+}
+
+// ---------------- watchdog ----------------
+
+var (
+	stuckMu   sync.Mutex
+	stuckSeen = map[string]bool{} // goroutine ids already attributed to an earlier stuck history
+)
+
+// runHistoryGuarded runs one history under a watchdog. If it does not finish, the goroutine dump is
+// searched for a PROVEN lock cycle inside the code under test (each side blocked on a lock the other
+// holds); only that is reported as a deadlock, anything else is inconclusive.
+func runHistoryGuarded(p hparams, rng *core.Rand) (h *hist, deadlock, dump string) {
+	ch := make(chan *hist, 1)
+	go func() { ch <- runHistory(p, rng) }()
+	select {
+	case h := <-ch:
+		return h, "", ""
+	case <-time.After(30 * time.Second):
+	}
+	buf := make([]byte, 16<<20)
+	buf = buf[:runtime.Stack(buf, true)]
+	stuckMu.Lock()
+	defer stuckMu.Unlock()
+	var commit, subscribe string
+	var mine []string
+	for _, g := range strings.Split(string(buf), "\n\n") {
+		id := g
+		if i := strings.Index(g, " ["); i > 0 {
+			id = g[:i]
+		}
+		if stuckSeen[id] {
+			continue
+		}
+		switch {
+		case strings.Contains(g, "inmem.(*Restoration).Commit") && strings.Contains(g, "stream.(*EventPublisher).RefreshTopic") && strings.Contains(g, "Mutex.Lock"):
+			commit = g
+			stuckSeen[id] = true
+		case strings.Contains(g, "inmem.(*Store).watchSnapshot") && strings.Contains(g, "inmem.(*Store).txn") && strings.Contains(g, "stream.(*EventPublisher).Subscribe") && strings.Contains(g, "RWMutex.RLock"):
+			subscribe = g
+			stuckSeen[id] = true
+		case strings.Contains(g, "zzverif/c18"):
+			mine = append(mine, g)
+		}
+	}
+	if commit != "" && subscribe != "" {
+		return nil, "Restoration.Commit holds Store.mu (write) and waits for EventPublisher.lock in RefreshTopic, while WatchList -> EventPublisher.Subscribe holds EventPublisher.lock and waits for Store.mu (read) in the snapshot handler watchSnapshot", commit + "\n\n" + subscribe
+	}
+	if len(mine) > 12 {
+		mine = mine[:12]
+	}
+	return nil, "", strings.Join(mine, "\n\n")
 }
